@@ -238,6 +238,8 @@ def shared(kind, text):
 def code_format(code):
     if code == 7:
         return 'json'
+    if code in (17, 18):     # internal consistency of the observed document (sarif references, junit counts)
+        return {17: 'sarif', 18: 'junit'}[code]
     return FORMATS[code - 10] if code >= 10 else FORMATS[code]
 
 
@@ -315,6 +317,15 @@ def shrink_case(ctx, h, case, fmt, still_fails):
 
 
 def finding_kind(detail):
+    if detail.startswith('internally inconsistent document'):
+        # the two redundant parts of one document contradict each other; one kind per cross-reference / count
+        for word, kind in (('ruleIndex', 'rule-index'), ('rule.id', 'rule-index'), ('tool.driver.rules', 'rule-index'),
+                           ('artifact', 'artifact-reference'), ('kind', 'kind-level'), ('tests=', 'counts'), ('failures=', 'counts'),
+                           ('classname', 'suite-of-case'), ('failure text', 'failure-text'), ('footer', 'footer-counts'),
+                           ('summary', 'summary-counts'), ('annotation', 'annotation-vs-table'), ('annotations', 'annotation-vs-table')):
+            if word in detail:
+                return 'inconsistent-' + kind
+        return 'inconsistent-other'
     if 'illegal character code' in detail:
         return 'junit-illegal-xml-character'
     if 'not valid UTF-8' in detail:
@@ -901,6 +912,16 @@ def run(ctx):
                              'case': {k: small[k] for k in ('gen', 'nocolor', 'report')}, 'readable': small.get('q'),
                              'document': small['docs'].get(f)}, no_input=True)
 
+    # self-test of the internal-consistency checks: perturbed documents must be rejected
+    st = subprocess.run([h, 'selftest'], stdout=subprocess.PIPE, stderr=subprocess.PIPE, timeout=300)
+    if st.returncode != 0:
+        raise RuntimeError('c10 selftest failed: ' + st.stderr.decode('utf-8', 'replace')[-2000:])
+    selftest = json.loads(st.stdout.decode('utf-8'))
+    st_missed = [x for x in selftest if not x['flagged']]
+    if st_missed and not ctx.violations:
+        vlib.violation(ctx, {'kind': 'self-test', 'what': 'a perturbed document was not rejected by the internal-consistency check '
+                                                          '(or the unperturbed one was): %s' % st_missed[0]['name'], 'all': selftest}, no_input=True)
+
     timing['reporter_eval_s'] = round(time.time() - t1, 1)
     t2 = time.time()
     # ---- the real binary ----------------------------------------------------------------
@@ -945,9 +966,25 @@ def run(ctx):
                 continue
             seen_out.add((j['ws'], j['format']))
             if len(ctx.violations) < 4:
-                vlib.violation(ctx, dict(job_replay(j), kind='binary-output-predicate',
-                                         what='stdout of the %s run does not present every violation of the report exactly once' % j['format']),
+                only_inc = bspec[i] <= {17, 18}
+                pr = (j.get('parsed') or {}).get('pred') or {}
+                vlib.violation(ctx, dict(job_replay(j), kind='binary-output-inconsistent' if only_inc else 'binary-output-predicate',
+                                         what=('stdout of the %s run is internally inconsistent (Check.C10Check.spec_failures code %s: sarif '
+                                               'ruleIndex / artifacts, junit counts)%s' % (j['format'], sorted(bspec[i]),
+                                               '' if pr.get('ok', True) else '; harness: ' + str(pr.get('detail'))))
+                                         if only_inc else
+                                         'stdout of the %s run does not present every violation of the report exactly once' % j['format']),
                                signature={'kind': 'binary-output', 'key': '%s/%s' % (j['ws'], j['format'])})
+        # internal consistency of every stdout document (cross-references and redundant counts; needs no report)
+        seen_inc = set()
+        for j in jobs:
+            pr = (j.get('parsed') or {}).get('pred') or {}
+            if j.get('doc') is not None and not is_err(j['doc']) and pr.get('ok') is False and (j['ws'], j['format']) not in seen_inc \
+                    and (j['ws'], j['format']) not in seen_out and len(ctx.violations) < 4:
+                seen_inc.add((j['ws'], j['format']))
+                vlib.violation(ctx, dict(job_replay(j), kind='binary-output-inconsistent',
+                                         what='stdout of the %s run: %s' % (j['format'], pr.get('detail'))),
+                               signature={'kind': 'binary-output-inconsistent', 'key': '%s/%s' % (j['ws'], j['format'])})
         unparsable = [j for j in jobs if j['report'] is not None and j['format'] in FORMATS and is_err(j['doc'])]
         for j in unparsable[:2]:
             if len(ctx.violations) < 4:
@@ -1024,6 +1061,18 @@ def run(ctx):
         'predicate_failures_harness': sum(1 for v in pred_fail.values() for d in v.values() if finding_kind(d) != 'format-omits-rule-and-level'),
         'known_finding_hits_compact_omits_rule_and_level': sum(1 for v in pred_fail.values() for d in v.values() if finding_kind(d) == 'format-omits-rule-and-level'),
         'predicate_failures_coq': sum(len(v) for v in spec.values()),
+        'internal_consistency': {
+            'checked_documents_reporter_level': len(cases) * len(FORMATS),
+            'checked_documents_binary_level': sum(1 for j in jobs if j.get('doc') is not None and not is_err(j['doc'])),
+            'failures_reporter_level': sum(1 for v in pred_fail.values() for d in v.values() if finding_kind(d).startswith('inconsistent-')),
+            'failures_binary_level': sum(1 for j in jobs if ((j.get('parsed') or {}).get('pred') or {}).get('ok') is False
+                                         and j.get('doc') is not None and not is_err(j['doc'])),
+            'sarif_results_with_rule_index': sum(1 for c in cases if not is_err(c['docs'].get('sarif'))
+                                                 for x in (c['docs']['sarif'].get('results') or []) if x.get('index') is not None),
+            'sarif_documents_where_rules_are_not_in_sorted_order': sum(
+                1 for c in cases if not is_err(c['docs'].get('sarif')) and
+                [r['id'] for r in c['docs']['sarif'].get('rules') or []] != sorted(r['id'] for r in c['docs']['sarif'].get('rules') or [])),
+            'selftest_perturbations_flagged': '%d/%d' % (len(selftest) - len(st_missed), len(selftest))},
         'mismatch_model_exit': len(e1), 'exit_spec_failures': len(e2),
         'binary_stdout_predicate_failures': sum(len(v) for v in bspec.values()),
         'samples': [c.get('q') for c in cases[9:12]] + [{'ws': j['ws'], 'cmd': ' '.join(j['args']), 'status': j['status']} for j in jobs[:3]],
